@@ -33,6 +33,9 @@ pub struct Sched2Case {
 	pub switch_prob: f64,
 	/// the sound is played on a sub-track instead of the main track
 	pub on_track: bool,
+	/// instead: a running clock is stopped while callbacks run; it must end up stopped at time zero
+	#[serde(default)]
+	pub stop_race: bool,
 }
 
 pub fn gen(rng: &mut Rng) -> Sched2Case {
@@ -43,10 +46,116 @@ pub fn gen(rng: &mut Rng) -> Sched2Case {
 		callbacks: rng.urange(2, 6),
 		switch_prob: *rng.pick(&[0.1, 0.3, 0.6, 0.9]),
 		on_track: rng.chance(0.4),
+		stop_race: rng.chance(0.4),
 	}
 }
 
+/// `ClockHandle::stop()` ("stops and resets the clock") against callbacks: whatever the
+/// interleaving, a few undisturbed callbacks later the clock is not ticking and reads zero.
+fn run_stop_race(case: &Sched2Case) -> CaseResult {
+	let mut res = CaseResult::default();
+	let mut beh = Hasher64::new();
+	let sim = Sim::new(case.seed);
+	sim.set_random_params(case.switch_prob, 0.1, 60_000);
+	let manager = monitor::catch(|| {
+		AudioManager::<SimBackend>::new(AudioManagerSettings {
+			internal_buffer_size: 8,
+			backend_settings: SimBackendSettings { sample_rate: 1000 },
+			..Default::default()
+		})
+		.unwrap()
+	});
+	let Ok(mut manager) = manager else {
+		sim.shutdown();
+		return res;
+	};
+	let device = manager.backend_mut().device.clone();
+	let mut out = Vec::new();
+	// 37.5 ticks per second: 0.3 ticks per 8-frame callback, so that both words of the time move
+	let mut clock = manager.add_clock(ClockSpeed::TicksPerSecond(37.5)).unwrap();
+	clock.start();
+	for _ in 0..case.warm + 2 + case.ticks as usize * 3 {
+		let _ = device.callback(8, 2, &mut out);
+	}
+	let before = clock.time();
+	let clock = Arc::new(Mutex::new(clock));
+	{
+		let clock = clock.clone();
+		sim.spawn_task(
+			"gameplay",
+			Role::Gameplay,
+			Box::new(move || {
+				kira::verif::yield_point("gameplay.between_ops");
+				clock.lock().unwrap().stop();
+			}),
+		);
+	}
+	{
+		let (device, n) = (device.clone(), case.callbacks);
+		sim.spawn_task(
+			"audio",
+			Role::Audio,
+			Box::new(move || {
+				let mut out = Vec::new();
+				for _ in 0..n {
+					let rep = device.callback(8, 2, &mut out);
+					if let Some(p) = rep.panic {
+						panic!("{p}");
+					}
+					kira::verif::yield_point("audio.between_callbacks");
+				}
+			}),
+		);
+	}
+	sim.run_random();
+	res.count("context_switches", sim.switches());
+	if sim.capped() {
+		res.inconclusive = true;
+	}
+	for (role, name, msg) in sim.take_panics() {
+		res.fail(Violation::new("panic", format!("task-panic: {}", panic_signature(&msg)), format!("{role:?} task {name} panicked: {msg}")));
+	}
+	for _ in 0..3 {
+		let rep = device.callback(8, 2, &mut out);
+		if let Some(p) = rep.panic {
+			res.fail(Violation::new("panic", format!("audio-panic: {}", panic_signature(&p)), p));
+		}
+	}
+	if res.violation.is_none() && !res.inconclusive {
+		let c = clock.lock().unwrap();
+		let (ticking, t) = (c.ticking(), c.time());
+		if ticking || t.ticks != 0 || t.fraction != 0.0 {
+			res.fail(Violation::new(
+				"clock-model",
+				"stopped-clock-not-reset",
+				format!(
+					"a running clock (at {}.{:03} ticks) was stopped with stop() while callbacks ran; three undisturbed callbacks later it reports ticking = {ticking}, time = {} ticks + {:.6}: stopping must reset it to zero",
+					before.ticks,
+					(before.fraction * 1000.0) as u64,
+					t.ticks,
+					t.fraction
+				),
+			));
+		} else {
+			res.hit("clocks_stopped_under_a_race");
+		}
+	}
+	beh.u64(sim.trace_hash());
+	res.nontrivial = true;
+	res.callbacks = (case.warm + 2 + case.ticks as usize * 3 + case.callbacks + 3) as u64;
+	res.hit("type.sched_stop_race");
+	res.trace_hash = sim.trace_hash();
+	res.behaviour_sig = beh.finish();
+	drop(clock);
+	drop(manager);
+	sim.shutdown();
+	res
+}
+
 pub fn run(case: &Sched2Case) -> CaseResult {
+	if case.stop_race {
+		return run_stop_race(case);
+	}
 	let mut res = CaseResult::default();
 	let mut beh = Hasher64::new();
 	let sim = Sim::new(case.seed);
